@@ -1556,7 +1556,7 @@ def run(ctx, scale):
     "(entry by entry it is kernel_hparam_grad) - compared numerically: model vs library vs Richardson finite differences of compute_log_likelihood",
     "ei_grad / pf_cdf_grad are stated for an arbitrary Phi with explicit derivative hypotheses; for Mathlib's Gaussian they are discharged "
     "(normal_cdf_hasDerivAt, ei_inner_nonneg_gaussian) - that scipy's ndtr IS that Gaussian CDF is part of the trusted base",
-    "symmetry of K^-1 enters gp_var_grad as the hypothesis 'B is self-adjoint w.r.t. the list dot product' (shown satisfiable; not derived from a list-level inverse)",
+    "the self-adjointness hypothesis of gp_var_grad is discharged for B = K^-1 with K symmetric / positive definite (selfAdjoint_ofFnM_iff, gp_var_grad_posDef, gp_var_grad_kernel_posDef); K^-1 there is the exact inverse, its floating-point counterpart is compared numerically",
     "beyond POSITIVE_EXPONENT_CAP the logistic VALUE is constant while the implemented gradient keeps exp(cap): |gradient| <= |kappa mu'| e^-40 "
     "(pf_logistic_cap_grad_bound); the harness allows exactly this window there and skips finite differences when the stencil straddles the cap",
     "where the posterior variance is clamped at MINIMUM_KRIGING_VARIANCE the value is constant and the code returns the unclamped gradient (gp_var_clamp "
